@@ -1,4 +1,6 @@
-(* C13 over the older shipped universes: the lookup-order sweep of daf_butler universe 6 (2^13 groups). *)
+(* C13 over the older shipped universes: the lookup-order facts of daf_butler universe 6 (today the same model universe
+   as the current one; otherwise a sweep of its 2^13 groups). *)
 From Coq Require Import String List Bool Arith.
 From V Require Import Model.Universe Model.Group Gen.Universes Proofs.DataIdProofsOldA.
-Lemma lookup_sweep_old6 : lookup_sweep u_old6 = true. Proof. vm_cast_no_check (eq_refl true). Qed.
+Lemma lookup_sweep_old6 : lookup_sweep u_old6 = true.
+Proof. first [ exact (sweep_transfer u_old6 u_current eq_refl lookup_sweep_current) | vm_cast_no_check (eq_refl true) ]. Qed.
